@@ -324,6 +324,9 @@ func (e *Env) fpIntrinsic(name string, x *ECall) Val {
 	case "fp.floor":
 		v := fl(0)
 		return Val{S: app("fp.roundToIntegral", "RTN", v.S), Sort: v.Sort, GT: v.GT}
+	case "fp.round":
+		v := fl(0)
+		return Val{S: app("fp.roundToIntegral", "RNA", v.S), Sort: v.Sort, GT: v.GT}
 	case "fp.nan":
 		return Val{S: "(_ NaN 11 53)", Sort: "Float64", GT: tFloat64}
 	case "fp.inf":
